@@ -238,14 +238,18 @@ Proof. intros H1 H2. eapply HR_trans; [exact H1|exact H2]. Qed.
 Lemma SR_k_same c T s x x' : SR c T s x -> hs x' = hs x -> SR c T s x'.
 Proof. intros H E. unfold SR. rewrite E. exact H. Qed.
 
-Lemma HR_sess_get c T h na : HR c T h (fst (sess_get h na)).
-Proof. unfold sess_get. destruct (alist_get na (sessions h)); [apply HR_same; reflexivity|apply HR_refl]. Qed.
+(* [c']: the configuration whose clock the session cache reads *)
+Lemma HR_sess_get c' c T h na : HR c T h (fst (sess_get c' h na)).
+Proof. destruct (sess_get_frame c' h na) as (A & B & C & _). apply HR_same; assumption. Qed.
 
-Lemma SR_is_awaiting c T s na : SR c T s (fst (is_awaiting_session s na)).
+Lemma SR_is_awaiting c' c T s na : SR c T s (fst (is_awaiting_session c' s na)).
 Proof.
-  unfold is_awaiting_session. pose proof (HR_sess_get c T (hs s) na) as H.
-  destruct (sess_get (hs s) na) as [h se]. cbn [fst] in H. destruct se; exact H.
+  unfold is_awaiting_session. pose proof (HR_sess_get c' c T (hs s) na) as H.
+  destruct (sess_get c' (hs s) na) as [h se]. cbn [fst] in H. destruct se; exact H.
 Qed.
+
+Lemma SR_remove_expired c' c T s : SR c T s (remove_expired_sessions c' s).
+Proof. destruct (remove_expired_sessions_frame c' s) as (A & B & C & _). apply HR_same; assumption. Qed.
 
 Definition at_time (t : N) : N -> Prop := fun x => x = t.
 
@@ -255,13 +259,13 @@ Proof.
   unfold send_request.
   destruct (existsb (N.eqb (c_addr ct)) (cfg_listen c)); [apply SR_refl|].
   set (na := c_naddr ct).
-  assert (Ha : SR c (at_time now) s (fst (if has_challenge (hs s) na then (s, true) else is_awaiting_session s na))).
+  assert (Ha : SR c (at_time now) s (fst (if has_challenge (hs s) na then (s, true) else is_awaiting_session c s na))).
   { destruct (has_challenge (hs s) na); [apply SR_refl|apply SR_is_awaiting]. }
-  destruct (if has_challenge (hs s) na then (s, true) else is_awaiting_session s na) as [s1 awaiting].
+  destruct (if has_challenge (hs s) na then (s, true) else is_awaiting_session c s na) as [s1 awaiting].
   cbn [fst] in Ha. destruct awaiting; cbn [fst].
   - apply SR_k_with_hs; [exact Ha|apply HR_push_pending; reflexivity].
-  - pose proof (HR_sess_get c (at_time now) (hs s1) na) as Hg.
-    destruct (sess_get (hs s1) na) as [h2 se]. cbn [fst] in Hg.
+  - pose proof (HR_sess_get c c (at_time now) (hs s1) na) as Hg.
+    destruct (sess_get c (hs s1) na) as [h2 se]. cbn [fst] in Hg.
     destruct se as [se|].
     + rewrite encrypt_message_eq. cbn [fst snd].
       apply SR_k_with_hs; [|apply HR_ar_insert; reflexivity].
@@ -286,9 +290,10 @@ Qed.
 Lemma SR_fail_session c T s na err rm : SR c T s (fail_session c s na err rm).
 Proof.
   unfold fail_session.
-  set (s1 := if rm then with_hs s (sess_remove (hs s) na) else s).
+  set (s1 := if rm then let s0 := remove_expired_sessions c s in with_hs s0 (sess_remove (hs s0) na) else s).
   assert (H1 : SR c T s s1).
-  { unfold s1. destruct rm; [apply SR_with_hs; apply HR_same; reflexivity|apply SR_refl]. }
+  { unfold s1. destruct rm; [|apply SR_refl]. cbv zeta.
+    eapply SR_trans; [apply (SR_remove_expired c)|]. apply SR_with_hs; apply HR_same; reflexivity. }
   set (s2 := match alist_get na (pending (hs s1)) with Some l => _ | None => s1 end).
   assert (H2 : SR c T s1 s2).
   { unfold s2. destruct (alist_get na (pending (hs s1))) as [l|]; [|apply SR_refl].
@@ -312,9 +317,9 @@ Qed.
 Lemma SR_replay c s na skip now : SR c (at_time now) s (replay_active_requests c s na skip now).
 Proof.
   unfold replay_active_requests.
-  pose proof (HR_sess_get c (at_time now) (hs s) na) as Hg.
-  destruct (sess_get (hs s) na) as [h1 se]. cbn [fst] in Hg.
-  destruct se as [se0|]; [|apply SR_refl].
+  pose proof (HR_sess_get c c (at_time now) (hs s) na) as Hg.
+  destruct (sess_get c (hs s) na) as [h1 se]. cbn [fst] in Hg.
+  destruct se as [se0|]; [|exact Hg].
   set (reqs := filter _ _).
   pose proof (replay_fold c na reqs (with_hs s h1) se0 []) as Hf. cbn zeta in Hf.
   destruct (fold_left _ reqs (with_hs s h1, se0, [])) as [[s2 se2] pkts]. cbn [fst snd] in Hf.
@@ -329,8 +334,9 @@ Qed.
 Lemma SR_new_session c s na se skip now : SR c (at_time now) s (new_session c s na se skip now).
 Proof.
   unfold new_session.
-  pose proof (HR_sess_get c (at_time now) (hs s) na) as Hg.
-  destruct (sess_get (hs s) na) as [h1 cur]. cbn [fst] in Hg.
+  eapply SR_trans; [apply (SR_remove_expired c)|]. generalize (remove_expired_sessions c s). clear s. intros s.
+  pose proof (HR_sess_get c c (at_time now) (hs s) na) as Hg.
+  destruct (sess_get c (hs s) na) as [h1 cur]. cbn [fst] in Hg.
   destruct cur as [cs|].
   - match goal with |- context [replay_active_requests c ?s1 na skip now] =>
       assert (X : SR c (at_time now) s (replay_active_requests c s1 na skip now)) end.
@@ -374,8 +380,8 @@ Qed.
 
 Lemma SR_send_response c T s na rid rb : SR c T s (send_response c s na rid rb).
 Proof.
-  unfold send_response. pose proof (HR_sess_get c T (hs s) na) as Hg.
-  destruct (sess_get (hs s) na) as [h1 se]. cbn [fst] in Hg. destruct se as [se|]; [|apply SR_refl].
+  unfold send_response. pose proof (HR_sess_get c c T (hs s) na) as Hg.
+  destruct (sess_get c (hs s) na) as [h1 se]. cbn [fst] in Hg. destruct se as [se|]; [|exact Hg].
   rewrite encrypt_message_eq. unfold SR. cbn [send emit with_hs hs].
   eapply HR_trans; [exact Hg|apply HR_same; reflexivity].
 Qed.
@@ -409,9 +415,9 @@ Qed.
 
 Lemma SR_handle_message c s na n aad ct now : SR c (at_time now) s (handle_message c s na n aad ct now).
 Proof.
-  unfold handle_message. pose proof (HR_sess_get c (at_time now) (hs s) na) as Hg.
-  destruct (sess_get (hs s) na) as [h1 se]. cbn [fst] in Hg.
-  destruct se as [se|]; [|exact (HR_refl _ _ _)].
+  unfold handle_message. pose proof (HR_sess_get c c (at_time now) (hs s) na) as Hg.
+  destruct (sess_get c (hs s) na) as [h1 se]. cbn [fst] in Hg.
+  destruct se as [se|]; [|exact Hg].
   destruct (decrypt_message se n aad ct) as [se' m].
   set (s2 := with_hs (with_hs s h1) (sess_put (hs (with_hs s h1)) na se')).
   assert (H2 : SR c (at_time now) s s2).
@@ -471,7 +477,7 @@ Proof.
   { unfold SR. cbn [with_hs hs]. split.
     - intros K. apply KeyWF_ar_insert; [apply H1; exact K|apply (H2 na r eq_refl K)].
     - eapply NmExt_trans; [apply H1|apply NmExt_ar_insert; reflexivity]. }
-  destruct (rc_hs_sent r).
+  destruct (rc_hs_sent r || c_ed (rc_contact r)).
   { eapply SR_trans; [|apply SR_fail_request]. destruct (fix_d6 c); exact H1. }
   destruct (pop_pk (dr (with_hs s h1))) as [[[[cn rr] aad] eph] d'].
   set (ct := rc_contact r).
@@ -538,20 +544,22 @@ Proof.
   assert (FR : forall d, d < now -> SR c (tick_time c now) s (match group_of d (nmap (hs s)) with
       | _ :: _ :: _ =>
         let (rev_order, d') := pop_rev (dr s) in
-        fire_group c {| hs := hs s; dr := d'; outs := outs s |}
+        fire_group (with_clock c (fire_time c d now)) {| hs := hs s; dr := d'; outs := outs s |}
           (if rev_order then rev (group_of d (nmap (hs s))) else group_of d (nmap (hs s))) d (fire_time c d now)
-      | _ => fire_group c s (group_of d (nmap (hs s))) d (fire_time c d now)
+      | _ => fire_group (with_clock c (fire_time c d now)) s (group_of d (nmap (hs s))) d (fire_time c d now)
       end)).
   { intros d Hd.
     assert (W : forall t, at_time (fire_time c d now) t -> tick_time c now t).
     { intros t ->. exists d. auto. }
     destruct (group_of d (nmap (hs s))) as [|x [|y g]];
-      try (eapply SR_weaken; [exact W|apply SR_fire_group]).
+      try (eapply SR_weaken; [exact W|exact (SR_fire_group (with_clock c (fire_time c d now)) s _ d (fire_time c d now))]).
     destruct (pop_rev (dr s)) as [ro d'].
     eapply SR_weaken; [exact W|].
-    exact (SR_fire_group c {| hs := hs s; dr := d'; outs := outs s |} _ d (fire_time c d now)). }
-  assert (FC : forall cna cd, cd < now -> SR c (tick_time c now) s (fire_challenge c s cna (fire_time c cd now))).
-  { intros cna cd Hd. eapply SR_weaken; [|apply SR_fire_challenge]. intros t ->. exists cd. auto. }
+    exact (SR_fire_group (with_clock c (fire_time c d now)) {| hs := hs s; dr := d'; outs := outs s |} _ d (fire_time c d now)). }
+  assert (FC : forall cna cd, cd < now ->
+            SR c (tick_time c now) s (fire_challenge (with_clock c (fire_time c cd now)) s cna (fire_time c cd now))).
+  { intros cna cd Hd. eapply SR_weaken; [|exact (SR_fire_challenge (with_clock c (fire_time c cd now)) s cna (fire_time c cd now))].
+    intros t ->. exists cd. auto. }
   destruct (min_deadline_nmap (nmap (hs s)) None) as [[[rn ra] rd]|];
   destruct (min_deadline_ch (challenges (hs s)) None) as [[[cna cc] cd]|].
   - destruct (N.ltb rd now) eqn:E1; cbn [andb].
@@ -575,7 +583,7 @@ Definition action_time (c : config) (now : N) : N -> Prop := fun t => t = now \/
 
 Local Transparent tick.
 Lemma SR_tick c h now d : SR c (tick_time c now) {| hs := h; dr := d; outs := [] |} (tick c h now d).
-Proof. unfold tick. apply SR_fire_due. Qed.
+Proof. unfold tick. exact (SR_fire_due (with_clock c now) now TICK_FUEL _). Qed.
 Global Opaque tick.
 
 Lemma HR_step c h e now d : HR c (action_time c now) h (fst (step c h e now d)).
@@ -583,7 +591,7 @@ Proof.
   rewrite step_eq. cbn [fst].
   eapply HR_trans.
   - eapply HR_weaken; [|apply (SR_tick c h now d)]. intros t H. right. exact H.
-  - eapply HR_weaken; [|apply (SR_dispatch c (tick c h now d) e now)]. intros t H. left. exact H.
+  - eapply HR_weaken; [|exact (SR_dispatch (with_clock c now) (tick c h now d) e now)]. intros t H. left. exact H.
 Qed.
 
 Lemma KeyWF_init : KeyWF init_state.
@@ -634,21 +642,29 @@ Proof. intros H Eo. eapply OE_trans; [exact H|apply OE_same; exact Eo]. Qed.
 
 Definition self_only : N -> Prop := fun e => e = ERR_SELF_REQUEST.
 
-Lemma OE_is_awaiting E s na : OE E s (fst (is_awaiting_session s na)).
+Lemma OE_is_awaiting E c s na : OE E s (fst (is_awaiting_session c s na)).
 Proof.
-  apply OE_same. unfold is_awaiting_session. destruct (sess_get (hs s) na) as [h se]. destruct se; reflexivity.
+  apply OE_same. unfold is_awaiting_session. destruct (sess_get c (hs s) na) as [h se]. destruct se; reflexivity.
+Qed.
+
+(* the report of the purged sessions is no failure report *)
+Lemma OE_remove_expired E c s : OE E s (remove_expired_sessions c s).
+Proof.
+  rewrite remove_expired_sessions_eq. destruct (fst (drop_expired c (sessions (hs s)))) as [|k ks]; [apply OE_refl|].
+  eapply OE_trans; [apply (OE_same E s (with_hs s (set_sessions (hs s) (snd (drop_expired c (sessions (hs s))))))); reflexivity|].
+  apply OutsExt_emit. intros rid err Eq. discriminate.
 Qed.
 
 Lemma OE_send_request E c s ct ext rid body now : OE E s (fst (send_request c s ct ext rid body now)).
 Proof.
   unfold send_request. destruct (existsb (N.eqb (c_addr ct)) (cfg_listen c)); [apply OE_refl|].
   set (na := c_naddr ct).
-  assert (Ha : OE E s (fst (if has_challenge (hs s) na then (s, true) else is_awaiting_session s na))).
+  assert (Ha : OE E s (fst (if has_challenge (hs s) na then (s, true) else is_awaiting_session c s na))).
   { destruct (has_challenge (hs s) na); [apply OE_refl|apply OE_is_awaiting]. }
-  destruct (if has_challenge (hs s) na then (s, true) else is_awaiting_session s na) as [s1 awaiting].
+  destruct (if has_challenge (hs s) na then (s, true) else is_awaiting_session c s na) as [s1 awaiting].
   cbn [fst] in Ha. destruct awaiting; cbn [fst].
   - eapply OE_k_same; [exact Ha|reflexivity].
-  - destruct (sess_get (hs s1) na) as [h2 se]. destruct se as [se|].
+  - destruct (sess_get c (hs s1) na) as [h2 se]. destruct se as [se|].
     + rewrite encrypt_message_eq. cbn [fst snd].
       eapply OE_trans; [exact Ha|]. eapply OE_k_same; [apply OE_emit_wire|reflexivity].
     + destruct (pop_pk (dr (with_hs s1 h2))) as [[[[cn r] aad] e0] d']. cbn [fst snd].
@@ -689,17 +705,27 @@ Proof.
     + exists lo. split; [exact E|]. intros o Ho. destruct (F o Ho) as (q' & H1 & H2). exists q'. split; [right; exact H1|exact H2].
 Qed.
 
+(* with [rm] the expired sessions are purged first: one more event, the report of the purge *)
+Definition purge_out (rm : bool) (o : output) : Prop := rm = true /\ exists ks, o = OEvent (HExpiredSessions ks).
+
 Lemma fail_session_outs c s na err rm :
-  OutsExt (fs_out (hs s) na err) s (fail_session c s na err rm).
+  OutsExt (fun o => fs_out (hs s) na err o \/ purge_out rm o) s (fail_session c s na err rm).
 Proof.
   unfold fail_session.
-  set (s1 := if rm then with_hs s (sess_remove (hs s) na) else s).
-  assert (E1 : outs s1 = outs s /\ pending (hs s1) = pending (hs s) /\ active (hs s1) = active (hs s)).
-  { unfold s1. destruct rm; repeat split. }
-  destruct E1 as (E1 & E1p & E1a). clearbody s1.
+  set (s1 := if rm then let s0 := remove_expired_sessions c s in with_hs s0 (sess_remove (hs s0) na) else s).
+  assert (E1 : (exists lo1, outs s1 = outs s ++ lo1 /\ Forall (purge_out rm) lo1) /\
+               pending (hs s1) = pending (hs s) /\ active (hs s1) = active (hs s)).
+  { unfold s1. destruct rm.
+    - cbv zeta. cbn [with_hs hs outs sess_remove set_sessions pending active].
+      destruct (remove_expired_sessions_frame c s) as (A & _ & B & _). split; [|split; assumption].
+      destruct (HandlerInv.remove_expired_sessions_outs c s) as [Eo|[ks Eo]]; rewrite Eo.
+      + exists []. rewrite app_nil_r. split; [reflexivity|constructor].
+      + exists [OEvent (HExpiredSessions ks)]. split; [reflexivity|]. constructor; [|constructor]. split; eauto.
+    - split; [|split; reflexivity]. exists []. rewrite app_nil_r. split; [reflexivity|constructor]. }
+  destruct E1 as ((lo1 & E1 & F1) & E1p & E1a). clearbody s1.
   set (s2 := match alist_get na (pending (hs s1)) with Some l => _ | None => s1 end).
   assert (H2 : active (hs s2) = active (hs s) /\
-               exists lo, outs s2 = outs s ++ lo /\ Forall (fs_out (hs s) na err) lo).
+               exists lo, outs s2 = outs s1 ++ lo /\ Forall (fs_out (hs s) na err) lo).
   { unfold s2. destruct (alist_get na (pending (hs s1))) as [l|] eqn:Hg.
     - destruct (fold_emit_outs pq_ext (fun q => OEvent (HRequestFailed (pq_rid q) err)) (fun s => s) (fun s => eq_refl) l
                   (with_hs s1 (set_pending (hs s1) (alist_remove na (pending (hs s1)))))) as (lo & E & F).
@@ -709,10 +735,10 @@ Proof.
         { clear. induction l as [|q t IH]; intros s0; cbn [fold_left]; [reflexivity|].
           rewrite IH. destruct (pq_ext q); reflexivity. }
         rewrite X. cbn [with_hs hs set_pending active]. exact E1a.
-      + exists lo. cbn [with_hs outs] in E. rewrite E1 in E. split; [exact E|].
+      + exists lo. cbn [with_hs outs] in E. split; [exact E|].
         apply Forall_forall. intros o Ho. destruct (F o Ho) as (q & H1 & ->).
         exists (pq_rid q). split; [reflexivity|]. left. exists l, q. rewrite <- E1p. auto.
-    - split; [exact E1a|]. exists []. rewrite app_nil_r. split; [exact E1|constructor]. }
+    - split; [exact E1a|]. exists []. rewrite app_nil_r. split; [reflexivity|constructor]. }
   destruct H2 as (E2a & lo2 & E2 & F2). clearbody s2.
   destruct (ar_remove_requests (hs s2) na) as [h3 reqs] eqn:E.
   assert (Hreqs : forall r, In r reqs -> exists l, alist_get na (active (hs s)) = Some l /\ In r l).
@@ -720,9 +746,11 @@ Proof.
     destruct (alist_get na (active (hs s))) as [l|]; inversion E; subst; [eauto|destruct Hr]. }
   destruct (fold_emit_outs rc_ext (fun r => OEvent (HRequestFailed (rc_rid r) err))
               (fun s => remove_expected s (snd na)) (fun s => eq_refl) reqs (with_hs s2 h3)) as (lo3 & E3 & F3).
-  exists (lo2 ++ lo3). split.
-  - rewrite E3. cbn [with_hs outs]. rewrite E2, app_assoc. reflexivity.
-  - apply Forall_app. split; [exact F2|]. apply Forall_forall. intros o Ho. destruct (F3 o Ho) as (r & H1 & ->).
+  exists (lo1 ++ lo2 ++ lo3). split.
+  - rewrite E3. cbn [with_hs outs]. rewrite E2, E1, !app_assoc. reflexivity.
+  - apply Forall_app. split; [eapply Forall_impl; [|exact F1]; intros o Ho; right; exact Ho|].
+    apply Forall_app. split; [eapply Forall_impl; [|exact F2]; intros o Ho; left; exact Ho|].
+    apply Forall_forall. intros o Ho. destruct (F3 o Ho) as (r & H1 & ->). left.
     exists (rc_rid r). split; [reflexivity|]. right. destruct (Hreqs r H1) as (l & H3 & H4). eauto.
 Qed.
 
@@ -730,7 +758,10 @@ Lemma fs_out_ok h na err o : fs_out h na err o -> out_ok (fun e => e = err) o.
 Proof. intros (rid & -> & _) rid' err' Eq. inversion Eq. reflexivity. Qed.
 
 Lemma OE_fail_session c s na err rm : OE (fun e => e = err) s (fail_session c s na err rm).
-Proof. eapply OutsExt_weaken; [apply fs_out_ok|apply fail_session_outs]. Qed.
+Proof.
+  eapply OutsExt_weaken; [|apply fail_session_outs]. intros o [Ho|(_ & ks & ->)]; [eapply fs_out_ok; exact Ho|].
+  intros rid e Eq. discriminate.
+Qed.
 Lemma OE_fail_request c s r err rm : OE (fun e => e = err) s (fail_request c s r err rm).
 Proof.
   unfold fail_request. eapply OE_trans; [|apply OE_fail_session].
@@ -739,7 +770,8 @@ Qed.
 
 Lemma OE_replay E c s na skip now : OE E s (replay_active_requests c s na skip now).
 Proof.
-  unfold replay_active_requests. destruct (sess_get (hs s) na) as [h1 se]. destruct se as [se0|]; [|apply OE_refl].
+  unfold replay_active_requests. destruct (sess_get c (hs s) na) as [h1 se].
+  destruct se as [se0|]; [|apply OE_same; reflexivity].
   set (reqs := filter _ _).
   pose proof (replay_fold c na reqs (with_hs s h1) se0 []) as Hf. cbn zeta in Hf.
   destruct (fold_left _ reqs (with_hs s h1, se0, [])) as [[s2 se2] pkts]. cbn [fst snd] in Hf.
@@ -752,7 +784,9 @@ Qed.
 
 Lemma OE_new_session c s na se skip now : OE self_only s (new_session c s na se skip now).
 Proof.
-  unfold new_session. destruct (sess_get (hs s) na) as [h1 cur]. destruct cur as [cs|].
+  unfold new_session. eapply OE_trans; [apply (OE_remove_expired _ c)|].
+  generalize (remove_expired_sessions c s). clear s. intros s.
+  destruct (sess_get c (hs s) na) as [h1 cur]. destruct cur as [cs|].
   - match goal with |- context [replay_active_requests c ?s1 na skip now] =>
       assert (X : OE self_only s (replay_active_requests c s1 na skip now)) end.
     { eapply OE_trans; [|apply OE_replay]. apply OE_same. reflexivity. }
@@ -762,7 +796,7 @@ Qed.
 
 Lemma OE_send_response E c s na rid rb : OE E s (send_response c s na rid rb).
 Proof.
-  unfold send_response. destruct (sess_get (hs s) na) as [h1 se]. destruct se as [se|]; [|apply OE_refl].
+  unfold send_response. destruct (sess_get c (hs s) na) as [h1 se]. destruct se as [se|]; [|apply OE_same; reflexivity].
   rewrite encrypt_message_eq. eapply OE_k_same; [apply OE_emit_wire|reflexivity].
 Qed.
 Lemma OE_send_challenge E c s na n known now : OE E s (send_challenge c s na n known now).
@@ -795,8 +829,9 @@ Proof. apply OE_weaken. intros e ->. discriminate. Qed.
 
 Lemma OE_handle_message c s na n aad ct now : OE not_timeout s (handle_message c s na n aad ct now).
 Proof.
-  unfold handle_message. destruct (sess_get (hs s) na) as [h1 se].
-  destruct se as [se|]; [|apply OE_emit_other; intros; discriminate].
+  unfold handle_message. destruct (sess_get c (hs s) na) as [h1 se].
+  destruct se as [se|].
+  2:{ eapply OE_trans; [apply (OE_same _ s (with_hs s h1)); reflexivity|apply OE_emit_other; intros; discriminate]. }
   destruct (decrypt_message se n aad ct) as [se' m].
   set (s2 := with_hs (with_hs s h1) (sess_put (hs (with_hs s h1)) na se')).
   assert (H2 : OE not_timeout s s2) by (apply OE_same; reflexivity). clearbody s2.
@@ -850,7 +885,7 @@ Proof.
   destruct (ar_remove_by_nonce (hs s) n) as [h1 found].
   destruct found as [[na r]|]; [|apply OE_same; reflexivity].
   destruct (negb (N.eqb (snd na) src)); [apply OE_same; reflexivity|].
-  destruct (rc_hs_sent r).
+  destruct (rc_hs_sent r || c_ed (rc_contact r)).
   { eapply OE_trans; [|eapply OE_weaken; [|apply OE_fail_request]].
     - destruct (fix_d6 c); apply OE_same; reflexivity.
     - intros e ->. discriminate. }
@@ -952,17 +987,17 @@ Proof.
   destruct (alist_get na (pending h)); exact H.
 Qed.
 
-Lemma active_sess_get3 h na : active (fst (sess_get h na)) = active h.
-Proof. unfold sess_get. destruct (alist_get na (sessions h)); reflexivity. Qed.
-Lemma pending_sess_get3 h na : pending (fst (sess_get h na)) = pending h.
-Proof. unfold sess_get. destruct (alist_get na (sessions h)); reflexivity. Qed.
+Lemma active_sess_get3 c h na : active (fst (sess_get c h na)) = active h.
+Proof. apply (sess_get_frame c h na). Qed.
+Lemma pending_sess_get3 c h na : pending (fst (sess_get c h na)) = pending h.
+Proof. apply (sess_get_frame c h na). Qed.
 
-Lemma is_awaiting_ap s na :
-  active (hs (fst (is_awaiting_session s na))) = active (hs s) /\
-  pending (hs (fst (is_awaiting_session s na))) = pending (hs s).
+Lemma is_awaiting_ap c s na :
+  active (hs (fst (is_awaiting_session c s na))) = active (hs s) /\
+  pending (hs (fst (is_awaiting_session c s na))) = pending (hs s).
 Proof.
-  unfold is_awaiting_session. pose proof (active_sess_get3 (hs s) na). pose proof (pending_sess_get3 (hs s) na).
-  destruct (sess_get (hs s) na) as [h se]. cbn [fst] in *. destruct se; cbn [fst with_hs hs]; auto.
+  unfold is_awaiting_session. pose proof (active_sess_get3 c (hs s) na). pose proof (pending_sess_get3 c (hs s) na).
+  destruct (sess_get c (hs s) na) as [h se]. cbn [fst] in *. destruct se; cbn [fst with_hs hs]; auto.
 Qed.
 
 (* send_request: the only request that may be new is the one handed over *)
@@ -972,10 +1007,10 @@ Lemma send_request_held c s ct ext rid body now rid' na' :
 Proof.
   unfold send_request. destruct (existsb (N.eqb (c_addr ct)) (cfg_listen c)); [cbn [fst]; auto|].
   set (na := c_naddr ct).
-  assert (Ha : let s1 := fst (if has_challenge (hs s) na then (s, true) else is_awaiting_session s na) in
+  assert (Ha : let s1 := fst (if has_challenge (hs s) na then (s, true) else is_awaiting_session c s na) in
                active (hs s1) = active (hs s) /\ pending (hs s1) = pending (hs s)).
   { cbv zeta. destruct (has_challenge (hs s) na); [split; reflexivity|apply is_awaiting_ap]. }
-  destruct (if has_challenge (hs s) na then (s, true) else is_awaiting_session s na) as [s1 awaiting].
+  destruct (if has_challenge (hs s) na then (s, true) else is_awaiting_session c s na) as [s1 awaiting].
   cbn [fst] in Ha. cbv zeta in Ha. destruct Ha as [Ea Ep]. destruct awaiting; cbn [fst].
   - cbn [with_hs hs]. intros [(r & A & B)|(q & A & B1 & B2)].
     + left. left. exists r. split; [|exact B].
@@ -985,8 +1020,8 @@ Proof.
     + apply StoredIn_push_pending in A. destruct A as [A| ->].
       * left. right. exists q. rewrite Ep in A. auto.
       * right. cbn [pq_rid pq_contact] in *. auto.
-  - pose proof (active_sess_get3 (hs s1) na) as Ga. pose proof (pending_sess_get3 (hs s1) na) as Gp.
-    destruct (sess_get (hs s1) na) as [h2 se]. cbn [fst] in Ga, Gp.
+  - pose proof (active_sess_get3 c (hs s1) na) as Ga. pose proof (pending_sess_get3 c (hs s1) na) as Gp.
+    destruct (sess_get c (hs s1) na) as [h2 se]. cbn [fst] in Ga, Gp.
     assert (X : forall s4 call, active (hs s4) = active h2 -> pending (hs s4) = pending h2 ->
               rc_rid call = rid -> rc_contact call = ct ->
               HeldC (hs (with_hs s4 (ar_insert c (hs s4) na call now))) rid' na' ->
@@ -1031,8 +1066,10 @@ Qed.
 Lemma SM_fail_session c s na err rm : SM s (fail_session c s na err rm).
 Proof.
   unfold fail_session.
-  set (s1 := if rm then with_hs s (sess_remove (hs s) na) else s).
-  assert (H1 : SM s s1). { unfold s1. destruct rm; [apply HM_same; reflexivity|apply HM_refl]. }
+  set (s1 := if rm then let s0 := remove_expired_sessions c s in with_hs s0 (sess_remove (hs s0) na) else s).
+  assert (H1 : SM s s1).
+  { unfold s1. destruct rm; [|apply HM_refl]. cbv zeta. destruct (remove_expired_sessions_frame c s) as (A & _ & B & _).
+    apply HM_same; cbn [with_hs hs sess_remove set_sessions active pending]; assumption. }
   set (s2 := match alist_get na (pending (hs s1)) with Some l => _ | None => s1 end).
   assert (H2 : SM s1 s2).
   { unfold s2. destruct (alist_get na (pending (hs s1))) as [l|]; [|apply HM_refl].
@@ -1151,7 +1188,8 @@ Proof.
     destruct Hin as [Hin|Hin].
     + destruct (W2 rid Hin) as [Hin'| ->]; [apply W; exact Hin'|].
       apply Wit. apply M. left. exists r. auto.
-    + rewrite Forall_forall in Fo. destruct (Fo _ Hin) as (rid' & Eq & Hh). inversion Eq; subst rid'.
+    + rewrite Forall_forall in Fo. destruct (Fo _ Hin) as [(rid' & Eq & Hh)|(Hrm & _)]; [|discriminate].
+      inversion Eq; subst rid'.
       apply Wit. apply M. rewrite Hr in Hh. destruct Hh as [(l0 & q & H1 & H2 & H3)|(l0 & r0 & H1 & H2 & H3)].
       * right. exists q. rewrite E2p in H1. split; [eapply StoredIn_get; eauto|]. split; [exact H3|].
         destruct K as [_ Kp]. exact (AllN_get _ _ _ _ Kp H1 _ H2).
@@ -1175,40 +1213,52 @@ Proof.
   destruct (N.eqb d' d0); [|exact P]. apply TP_fire_request; [exact Hd|apply Hg; left; reflexivity|exact P].
 Qed.
 
+(* the invariant of the timer stream does not look at the clock of the environment *)
+Lemma TP_clock c t h0 now s : TP (with_clock c t) h0 now s <-> TP c h0 now s.
+Proof. split; intros [A1 A2 A3 A4]; split; assumption. Qed.
+
 Lemma TP_fire_due c h0 now fuel : forall s, TP c h0 now s -> TP c h0 now (fire_due c s now fuel).
 Proof.
   induction fuel as [|f IH]; intros s P; cbn [fire_due]; [exact P|].
+  assert (FG : forall d g s', d < now -> (forall x, In x g -> Orig c h0 now (fst x) (snd x) d) -> TP c h0 now s' ->
+            TP c h0 now (fire_group (with_clock c (fire_time c d now)) s' g d (fire_time c d now))).
+  { intros d g s' Hd Hg P'. apply (TP_clock c (fire_time c d now)).
+    apply (TP_fire_group (with_clock c (fire_time c d now)) h0 now d g s' Hd); [exact Hg|apply TP_clock; exact P']. }
   assert (FR : forall d, d < now -> TP c h0 now (match group_of d (nmap (hs s)) with
       | _ :: _ :: _ =>
         let (rev_order, d') := pop_rev (dr s) in
-        fire_group c {| hs := hs s; dr := d'; outs := outs s |}
+        fire_group (with_clock c (fire_time c d now)) {| hs := hs s; dr := d'; outs := outs s |}
           (if rev_order then rev (group_of d (nmap (hs s))) else group_of d (nmap (hs s))) d (fire_time c d now)
-      | _ => fire_group c s (group_of d (nmap (hs s))) d (fire_time c d now)
+      | _ => fire_group (with_clock c (fire_time c d now)) s (group_of d (nmap (hs s))) d (fire_time c d now)
       end)).
   { intros d Hd.
     assert (Hg : forall x, In x (group_of d (nmap (hs s))) -> Orig c h0 now (fst x) (snd x) d).
     { intros x Hx. apply group_of_in in Hx. exact (TP_N _ _ _ _ P _ _ _ Hx). }
-    destruct (group_of d (nmap (hs s))) as [|x [|y g]] eqn:Eg; try (apply TP_fire_group; assumption).
+    destruct (group_of d (nmap (hs s))) as [|x [|y g]] eqn:Eg; try (apply FG; assumption).
     destruct (pop_rev (dr s)) as [ro d'].
     assert (P' : TP c h0 now {| hs := hs s; dr := d'; outs := outs s |}) by (destruct P; split; assumption).
-    apply TP_fire_group; [exact Hd| |exact P'].
+    apply FG; [exact Hd| |exact P'].
     destruct ro; [|exact Hg]. intros z Hz. apply Hg. apply in_rev. exact Hz. }
+  assert (FC : forall cna cd, cd < now ->
+            TP c h0 now (fire_challenge (with_clock c (fire_time c cd now)) s cna (fire_time c cd now))).
+  { intros cna cd Hd. apply (TP_clock c (fire_time c cd now)).
+    apply (TP_fire_challenge (with_clock c (fire_time c cd now)) h0 now s cna cd Hd). apply TP_clock. exact P. }
   destruct (min_deadline_nmap (nmap (hs s)) None) as [[[rn ra] rd]|];
   destruct (min_deadline_ch (challenges (hs s)) None) as [[[cna cc] cd]|].
   - destruct (N.ltb rd now) eqn:E1; cbn [andb].
     + destruct (negb (N.ltb cd now) || N.leb rd cd).
       * apply IH. apply FR. apply N.ltb_lt. exact E1.
-      * destruct (N.ltb cd now) eqn:E2; [|exact P]. apply IH. apply TP_fire_challenge; [apply N.ltb_lt; exact E2|exact P].
-    + destruct (N.ltb cd now) eqn:E2; [|exact P]. apply IH. apply TP_fire_challenge; [apply N.ltb_lt; exact E2|exact P].
+      * destruct (N.ltb cd now) eqn:E2; [|exact P]. apply IH. apply FC. apply N.ltb_lt; exact E2.
+    + destruct (N.ltb cd now) eqn:E2; [|exact P]. apply IH. apply FC. apply N.ltb_lt; exact E2.
   - destruct (N.ltb rd now) eqn:E1; [|exact P]. apply IH. apply FR. apply N.ltb_lt. exact E1.
-  - destruct (N.ltb cd now) eqn:E2; [|exact P]. apply IH. apply TP_fire_challenge; [apply N.ltb_lt; exact E2|exact P].
+  - destruct (N.ltb cd now) eqn:E2; [|exact P]. apply IH. apply FC. apply N.ltb_lt; exact E2.
   - exact P.
 Qed.
 
 Local Transparent tick.
 Lemma TP_tick c h now d : KeyWF h -> TP c h now (tick c h now d).
 Proof.
-  intros K. unfold tick. apply TP_fire_due. split; cbn [hs outs].
+  intros K. unfold tick. apply (TP_clock c now). apply TP_fire_due. split; cbn [hs outs].
   - exact K.
   - apply NmExt_refl.
   - apply HM_refl.
@@ -1227,7 +1277,7 @@ Theorem step_timeout_due c h e now d rid :
   exists n na dl, dl < now /\ Orig c h now n na dl /\ HeldC h rid na.
 Proof.
   intros K Hin. rewrite step_eq in Hin. cbn [snd] in Hin.
-  destruct (OE_dispatch c (tick c h now d) e now) as (lo & Eo & Fo). rewrite Eo in Hin.
+  destruct (OE_dispatch (with_clock c now) (tick c h now d) e now) as (lo & Eo & Fo). rewrite Eo in Hin.
   apply in_app_or in Hin. destruct Hin as [Hin|Hin].
   - exact (TP_W _ _ _ _ (TP_tick c h now d K) rid Hin).
   - rewrite Forall_forall in Fo. exfalso. exact (Fo _ Hin rid ERR_TIMEOUT eq_refl eq_refl).
